@@ -190,7 +190,8 @@ def handle (j : Json) : Except String Json := do
     | "merge" =>
       let inc ← (j.getObjVal? "incomplete").bind (·.getBool?)
       let ns ← (j.getObjVal? "non_strict").bind (·.getBool?)
-      let outfile := (j.getObjVal? "outfile").toOption.bind (fun v => v.getStr?.toOption)
+      let writable := ((j.getObjVal? "outfile_writable").toOption.bind (fun v => v.getBool?.toOption)).getD true
+      let outfile := ((j.getObjVal? "outfile").toOption.bind (fun v => v.getStr?.toOption)).map (fun o => (o, writable))
       let r := cliMerge fs paths outfile inc ns
       pure (Json.mkObj [("status", toJson r.status), ("stdout", match r.stdout with | some s => .str s | none => .null),
         ("written", match r.written with | some s => .str s | none => .null)])
